@@ -170,11 +170,19 @@ def main(argv=None):
             # (overflow, index, callee precondition, termination) stay violations.
             drift = 'auto' in f.labels and getattr(f, 'on_inserted', False) and f.function in (r.changed_items or [])
             unlowered = (getattr(r, 'incomplete_items', {}) or {}).get(f.function)
+            # displaced proof steps: in the changed function some inserted proof step (lemma call, ghost update, helper assert) follows or
+            # precedes a real line that is no longer there, so it may now sit at the wrong program point (before the statement it talks
+            # about instead of after it).  An obligation stated on an inserted line (clause, invariant, assert) that fails there may be a
+            # lost hint, not a defect: undecided.  Automatic obligations on real lines stay violations.
+            displaced = getattr(f, 'on_inserted', False) and (getattr(r, 'displaced_items', {}) or {}).get(f.function, 0)
             if prop in f.tags and unlowered:
                 # a declared lowering rule of this function did not apply to the changed text: the construct it used to replace by a
                 # specified one is handed to the verifier as it is, so a failed obligation says nothing about the code
                 undecided.append('%s: a lowering rule of the changed function %s no longer applies (%s); failed obligation not counted: %s' %
                                  (u.name, f.function, '; '.join(unlowered)[:200], (f.labels or ['auto'])[0]))
+            elif prop in f.tags and displaced and not drift:
+                undecided.append('%s: %d proof step(s) of the changed function %s lost their place (the real lines next to them changed); failed obligation on an inserted line not counted: %s' %
+                                 (u.name, displaced, f.function, (f.labels or ['auto'])[0]))
             elif prop in f.tags and drift:
                 undecided.append('%s: untagged proof step failed in the changed function %s (the transferred annotations may not fit the new code): %s @ woven line %s' %
                                  (u.name, f.function, f.primary and f.primary[1][:120], f.primary and f.primary[0]))
